@@ -18,7 +18,7 @@ def PV : Value → Prop
   | .symbol _ _ => True
   | .expr _ _ _ _ ae => ae = false
   | .leftRight l _ _ => ',' ∉ l
-  | .str _ => True
+  | .str cs => ∀ c ∈ cs, c.toNat < 256          -- `StringValue` raises on wider characters (batch B2, item 6)
   | .multiByte hs => ∀ h ∈ hs, h.length = 2
   | .multiWord hs => ∀ h ∈ hs, h.length = 4
   | .pyNone => False
@@ -181,11 +181,13 @@ theorem stripPrefix_snd (c : Char) (rest : Str) (d : Bool) :
 
 theorem create_succ (fuel : Nat) (c : Char) (rest : Str) (isStr is16 defExt : Bool) :
     create (fuel + 1) (c :: rest) isStr is16 defExt =
-      if isStr && (c :: rest).getLast? == some c then .ok (.str (((c :: rest).drop 1).dropLast))
+      if isStr && (c :: rest).getLast? == some c && (((c :: rest).drop 1).dropLast).all (fun ch => ch.toNat ≤ 255)
+      then .ok (.str (((c :: rest).drop 1).dropLast))
       else createBody fuel is16 (stripPrefix c rest defExt).1 (stripPrefix c rest defExt).2 := by
   rw [create]
   dsimp only
-  by_cases hs : (isStr && (c :: rest).getLast? == some c) = true
+  by_cases hs : (isStr && (c :: rest).getLast? == some c &&
+      (((c :: rest).drop 1).dropLast).all (fun ch => ch.toNat ≤ 255)) = true
   · rw [if_pos hs, if_pos hs]
   · rw [if_neg hs, if_neg hs]
     rfl
@@ -267,7 +269,12 @@ theorem create_pv {fuel : Nat} {s : Str} {a b c : Bool} {v : Value} (h : create 
     | cons ch rest =>
       rw [create_succ] at h
       split at h
-      · cases h; trivial
+      · rename_i hc
+        cases h
+        simp only [Bool.and_eq_true, List.all_eq_true, decide_eq_true_eq] at hc
+        intro x hx
+        have := hc.2 x hx
+        omega
       · exact (createBody_pv h).1
 
 theorem createV_pv {s : Str} {a b c : Bool} {v : Value} (h : createV s a b c = .ok v) : PV v := create_pv h
